@@ -3,7 +3,7 @@
    quantified; what is assumed about them is written as a premise of the theorem that needs it. *)
 From Coq Require Import List Arith NArith Bool.
 From Coq.Strings Require Import Byte.
-From Coq Require Import ZArith Permutation.
+From Coq Require Import ZArith Permutation Lia.
 From EV Require Import Base.Bytes Gen.Tables Model.Taproot Model.Huffman Proofs.Taproot Proofs.Huffman.
 Import ListNotations.
 
@@ -139,3 +139,122 @@ Theorem C15_huffman_shape : forall (Hleaf Hbranch Htweak : bytes -> bytes) (scal
 Proof. intros. pose proof (with_huffman_outcomes Hleaf Hbranch Htweak scalar_ok tweak P ws) as O.
   destruct (with_huffman_tree Hleaf Hbranch Htweak scalar_ok tweak P ws) as [i| |] eqn:E; try exact O.
   split; [exact O|]. exact (with_huffman_is_build Hleaf Hbranch Htweak scalar_ok tweak P ws i E). Qed.
+
+(* ---- Huffman order, full statement "a strictly heavier leaf is never strictly deeper than a lighter one", proved for every weight
+   list whose u64 sum does not saturate (always the case for fewer than 2^32 leaves of u32 weight: C15_huffman_no_saturation).
+   Leaves carry no weight in NodeInfo, so the statement is existential in the assignment: wl is a rearrangement of the inputs
+   that is, position by position, the leaves of the result (script, depth = length of the merkle branch); with pairwise distinct
+   scripts the assignment is unique.  (DESIGN had declared this clause partial — "merged weights non-decreasing" only; the full
+   clause is proved here without Huffman optimality: any two internal nodes of the final tree are ordered by creation time, so
+   for any two nodes x, y, weight x < weight y forces depth x >= depth y by induction on the depth of y.)
+   Not covered: saturating sums (>= 2^32 leaves), where the code's own documentation concedes a sub-optimal tree. *)
+Theorem C15_huffman_order : forall (Hleaf Hbranch : bytes -> bytes) (ws : list (N * bytes)) (n : node),
+  huff_node Hleaf Hbranch ws = Val n -> (wsum ws <= U64MAX)%N ->
+  exists wl : list (N * bytes * nat),
+    Permutation (map fst wl) ws /\
+    map (fun l => (l_script l, length (l_branch l))) (n_leaves n) = map (fun x => (snd (fst x), snd x)) wl /\
+    forall x y, In x wl -> In y wl -> (fst (fst y) < fst (fst x))%N -> (snd x <= snd y)%nat.
+Proof. exact huff_order. Qed.
+Theorem C15_huffman_no_saturation : forall ws : list (N * bytes),
+  (forall x, In x ws -> (fst x < 2 ^ 32)%N) -> (N.of_nat (length ws) <= 2 ^ 32)%N -> (wsum ws <= U64MAX)%N.
+Proof. exact wsum_u32. Qed.
+
+(* ================= non-vacuity: the premises are satisfiable and the objects exist ================= *)
+Definition toyH (tag : byte) (m : bytes) : bytes := firstn 32 (tag :: m ++ repeat x00 32).
+Definition toy_tweak (P t : bytes) : option (bytes * bool) := Some (t, false).
+Definition toy_check (P Q : bytes) (par : bool) (t : bytes) : bool := bytes_eqb Q t && negb par.
+Definition toy_tree : tree := Node (Node (Leaf [x51] xc4) (Hidden (repeat x07 32))) (Node (Leaf [x51] xc0) (Leaf [x52; x87] xc4)).
+Definition toy_P : bytes := repeat x02 32.
+Example C15_premises_satisfiable :
+  (forall m, length (toyH x01 m) = 32%nat) /\ (forall m, length (toyH x02 m) = 32%nat) /\
+  (forall P Q par t, toy_check P Q par t = true <-> toy_tweak P t = Some (Q, par)) /\
+  (forall P t t' r, toy_tweak P t = Some r -> toy_tweak P t' = Some r -> t = t').
+Proof. split; [|split; [|split]].
+  - intros m. unfold toyH. rewrite firstn_length. cbn [length]. rewrite app_length, repeat_length. apply Nat.min_l. lia.
+  - intros m. unfold toyH. rewrite firstn_length. cbn [length]. rewrite app_length, repeat_length. apply Nat.min_l. lia.
+  - intros P Q par t. unfold toy_check, toy_tweak. split.
+    + intros H. apply andb_true_iff in H as [H1 H2]. destruct (bytes_eqb_spec Q t); [|discriminate]. subst. destruct par; [discriminate|reflexivity].
+    + intros H. inversion H; subst. rewrite bytes_eqb_refl. reflexivity.
+  - intros P t t' r H1 H2. unfold toy_tweak in *. rewrite <- H2 in H1. now inversion H1. Qed.
+Example C15_tree_exists : exists i,
+  wf_tree toy_tree /\ (height toy_tree <= MAXD)%nat /\ length toy_P = 32%nat /\
+  build (toyH x01) (toyH x02) (toyH x03) (fun _ => true) toy_tweak (dfs toy_tree 0) toy_P = Val i /\
+  length (leaf_paths (toyH x01) (toyH x02) toy_tree) = 3%nat /\ length (hidden_paths (toyH x01) (toyH x02) toy_tree) = 1%nat /\
+  length (si_map i) = 3%nat.
+Proof. eexists. split; [repeat split; reflexivity|]. split; [vm_compute; repeat constructor|]. split; [reflexivity|].
+  split; [vm_compute; reflexivity|]. repeat split. Qed.
+(* weights 3, 2, 5: the heaviest script ends at depth 1, the two lighter ones at depth 2 *)
+Example C15_huffman_example : exists n,
+  huff_node (toyH x01) (toyH x02) [(3%N, [x51]); (2%N, [x52]); (5%N, [x53])] = Val n /\
+  map (fun l => (l_script l, length (l_branch l))) (n_leaves n) = [([x52], 2%nat); ([x51], 2%nat); ([x53], 1%nat)].
+Proof. eexists. split; vm_compute; reflexivity. Qed.
+(* a 7-element cyclic "curve": points Z/7 (0 = infinity), x-only = min(p, 7-p), parity = p > 3 *)
+Definition toy_mulG (s : Z) : Z := (s mod 7)%Z.
+Definition toy_xonly (p : Z) : option (bytes * bool) :=
+  if (p =? 0)%Z then None else Some ([n2b (Z.to_N (Z.min p (7 - p)))], (3 <? p)%Z).
+Definition toy_lift (x : bytes) : option Z :=
+  match x with [b] => let v := Z.of_N (b2n b) in if ((1 <=? v) && (v <=? 3))%Z then Some v else None | _ => None end.
+Example C15_keypair_premises_satisfiable :
+  (forall a b, toy_mulG (a + b) = ((toy_mulG a + toy_mulG b) mod 7)%Z) /\ (forall a, toy_mulG (- a) = ((- toy_mulG a) mod 7)%Z) /\
+  (forall s x par, toy_xonly (toy_mulG s) = Some (x, par) -> toy_lift x = Some (if par then ((- toy_mulG s) mod 7)%Z else toy_mulG s)) /\
+  (exists sk', keypair_tap_tweak (toyH x03) (fun _ => true) Z toy_mulG toy_xonly 5%Z None = Val sk').
+Proof. split; [|split; [|split]].
+  - intros a b. unfold toy_mulG. apply Z.add_mod. discriminate.
+  - intros a. unfold toy_mulG. rewrite <- (Z.sub_0_l a), <- (Z.sub_0_l (a mod 7)). rewrite Zminus_mod, (Zminus_mod 0 (a mod 7)), Z.mod_mod; [reflexivity|discriminate].
+  - intros s x par. unfold toy_mulG. pose proof (Z.mod_pos_bound s 7 eq_refl) as B. remember (s mod 7)%Z as p eqn:Ep. clear Ep.
+    assert (C : (p = 0 \/ p = 1 \/ p = 2 \/ p = 3 \/ p = 4 \/ p = 5 \/ p = 6)%Z) by lia.
+    destruct C as [->|[->|[->|[->|[->|[->| ->]]]]]]; vm_compute; intros H; inversion H; reflexivity.
+  - eexists. vm_compute. reflexivity. Qed.
+
+Check (C15_builder_sound : forall (Hleaf Hbranch : bytes -> bytes) (t : tree), (height t <= MAXD)%nat ->
+  run Hleaf Hbranch (dfs t 0) [] = Ok [Some (node_of Hleaf Hbranch t)] /\
+  n_hash (node_of Hleaf Hbranch t) = root Hleaf Hbranch t /\
+  n_leaves (node_of Hleaf Hbranch t) = rev (leaf_paths Hleaf Hbranch t)).
+Check (C15_builder_complete : forall (Hleaf Hbranch : bytes -> bytes) (items : list item) (b : br),
+  run Hleaf Hbranch items [] = Ok b -> is_complete b = true ->
+  exists t, (height t <= MAXD)%nat /\ items = dfs t 0 /\ b = [Some (node_of Hleaf Hbranch t)] /\ forall t', items = dfs t' 0 -> t' = t).
+Check (C15_refuses_others : forall (Hleaf Hbranch Htweak : bytes -> bytes) (scalar_ok : bytes -> bool)
+  (tweak : bytes -> bytes -> option (bytes * bool)) (items : list item) (P : bytes),
+  (forall t, (height t <= MAXD)%nat -> items <> dfs t 0) -> exists e, build Hleaf Hbranch Htweak scalar_ok tweak items P = Fail e).
+Check (C15_cb_wrong_parity_or_key : forall (Hleaf Hbranch Htweak : bytes -> bytes) (scalar_ok : bytes -> bool)
+  (tweak : bytes -> bytes -> option (bytes * bool)) (tweak_check : bytes -> bytes -> bool -> bytes -> bool),
+  (forall P Q par t, tweak_check P Q par t = true <-> tweak P t = Some (Q, par)) ->
+  forall (t : tree) (P : bytes) (i : spendinfo) (l : leafinfo),
+  (height t <= MAXD)%nat -> build Hleaf Hbranch Htweak scalar_ok tweak (dfs t 0) P = Val i -> In l (leaf_paths Hleaf Hbranch t) ->
+  verify Hleaf Hbranch Htweak scalar_ok tweak_check
+         {| cb_ver := l_ver l; cb_parity := negb (si_parity i); cb_key := P; cb_branch := l_branch l |} (si_outkey i) (l_script l) = Val false /\
+  (forall par Q, Q <> si_outkey i ->
+     verify Hleaf Hbranch Htweak scalar_ok tweak_check
+            {| cb_ver := l_ver l; cb_parity := par; cb_key := P; cb_branch := l_branch l |} Q (l_script l) = Val false)).
+Check (C15_cb_binding : forall (Hleaf Hbranch Htweak : bytes -> bytes) (scalar_ok : bytes -> bool)
+  (tweak : bytes -> bytes -> option (bytes * bool)) (tweak_check : bytes -> bytes -> bool -> bytes -> bool),
+  (forall m, length (Hleaf m) = 32%nat) -> (forall m, length (Hbranch m) = 32%nat) ->
+  (forall P Q par t, tweak_check P Q par t = true <-> tweak P t = Some (Q, par)) ->
+  (forall P t t' r, tweak P t = Some r -> tweak P t' = Some r -> t = t') ->
+  forall (t : tree) (P : bytes) (i : spendinfo) (c : cblock) (s : bytes),
+  wf_tree t -> (height t <= MAXD)%nat -> build Hleaf Hbranch Htweak scalar_ok tweak (dfs t 0) P = Val i ->
+  cb_key c = P -> (N.of_nat (length s) < 2 ^ 64)%N -> Forall (fun x => length x = 32%nat) (cb_branch c) ->
+  verify Hleaf Hbranch Htweak scalar_ok tweak_check c (si_outkey i) s = Val true ->
+  (cb_parity c = si_parity i /\ in_tree Hleaf Hbranch t s (cb_ver c) (cb_branch c)) \/
+  Collision Hleaf Hbranch Htweak \/
+  (cb_parity c = negb (si_parity i) /\
+   Htweak (P ++ cb_root Hleaf Hbranch c s) <> Htweak (P ++ root Hleaf Hbranch t) /\
+   tweak P (Htweak (P ++ cb_root Hleaf Hbranch c s)) = Some (si_outkey i, negb (si_parity i)))).
+Check (C15_huffman_order : forall (Hleaf Hbranch : bytes -> bytes) (ws : list (N * bytes)) (n : node),
+  huff_node Hleaf Hbranch ws = Val n -> (wsum ws <= U64MAX)%N ->
+  exists wl : list (N * bytes * nat),
+    Permutation (map fst wl) ws /\
+    map (fun l => (l_script l, length (l_branch l))) (n_leaves n) = map (fun x => (snd (fst x), snd x)) wl /\
+    forall x y, In x wl -> In y wl -> (fst (fst y) < fst (fst x))%N -> (snd x <= snd y)%nat).
+Print Assumptions C15_builder_sound.
+Print Assumptions C15_output_key.
+Print Assumptions C15_cb_verifies.
+Print Assumptions C15_cb_wrong_parity_or_key.
+Print Assumptions C15_cb_binding.
+Print Assumptions C15_builder_complete.
+Print Assumptions C15_refuses_others.
+Print Assumptions C15_accepts_trees.
+Print Assumptions C15_keypair.
+Print Assumptions C15_huffman_shape.
+Print Assumptions C15_huffman_order.
+Print Assumptions C15_huffman_no_saturation.
